@@ -50,6 +50,18 @@ CHECKS = {
  "C17": ("invariant monitor on every range of every query result against current file texts and the workspace key set",
          "Exploration over the same state space as C03 with non-ASCII text glued to identifiers and CRLF: every range of every result is checked for workspace membership, bounds and UTF-8 boundaries (quick: ~4e6 ranges).",
          "the workspace is the key set of diagnostics()", "5/C17"),
+ "C08": ("controlled-scheduler enumeration of thread interleavings at hooked synchronisation points on the real server, online wait-for-graph deadlock monitor; seeded-delay stress sessions",
+         "Exploration of schedules: the hook callback blocks server threads at their acquisition points, a scheduler grants one at a time consistently with a lock model and enumerates all grant orders by re-running the real server with forced choice prefixes: 3 handlers x 9 in-flight task kinds (thorough: all two-task combinations). Deadlock = waiting threads none of which can be granted, witnessed by a wait-for cycle over lock holders; no timing verdicts. Plus stress sessions with injected delays monitored by the same graph.",
+         "only the hooked acquisition points are controlled; an un-hooked lock shows as a watchdog (no verdict) or in stress; std RwLock queueing policy is not modelled", "5/C08"),
+ "C09": ("differential monitor at the JSON-RPC boundary: the real server's answers vs ide-level results converted by an independent position mapper using the text of the file each range belongs to",
+         "Exploration: generated multi-file workspaces with different line structures, non-ASCII, CRLF, seeded faults; definition + references at up to 60/200 identifier positions, documentSymbol / foldingRange / documentLink / inlayHint for every file, publishDiagnostics per URI.",
+         "refpos.rs is the position mapper; quiescence is logical (hook counters + barrier requests)", "5/C09"),
+ "C11": ("offline checker over the recorded notification stream at logically quiescent points against a reference session model; version monotonicity on arrival order",
+         "Exploration of histories: all didOpen/didChange histories of length <=3 (thorough 4) over a 6-action pool of two documents, stepwise and as bursts, plus random 4-8 step histories over three chained documents with includes added/removed and unique fault markers; last publication per URI compared with a fresh analysis of the final state, files that left the workspace must be cleared.",
+         "disk is kept equal to the editor text so that C12 cannot interfere; refsession = overlay of buffers on disk, root = last touched", "5/C11"),
+ "C12": ("marker-based reference-session monitor (provenance of every visible text: disk vs editor, per document and version) over recorded LSP sessions",
+         "Exploration of the same session space as C11 with disk texts that differ from everything the editor sends: diagnostics markers and documentSymbol outlines of every workspace document must come from the editor text for opened documents (also when reached only through an include) and from disk for never-opened ones.",
+         "markers are unique class names per (document, origin, version)", "5/C12"),
 }
 NOT_YET = "check under construction in this session; not claimed yet"
 
